@@ -393,11 +393,11 @@ def countOf (m : List (String × Int)) (n : String) : Int := (m.lookup n).getD 0
 
 /-- number of `/deploy/{a}/{e}/{n}/…` keys -/
 def deployed (s : St) (a e n : String) : Int :=
-  ((deployKeys s (joinParts [a, e])).filter fun (_, _, n', _, _) => n' == n).length
+  ((deployKeys s (joinParts [a, e])).map fun x => if x.2.2.1 = n then (1 : Int) else 0).sum
 
 /-- sum of the markers `/processing/{a}/{e}/{n}/…` -/
 def inProgress (s : St) (a e n : String) : Int :=
-  ((procKeys s (joinParts [a, e])).filter fun nc => nc.1 == n).foldl (fun acc nc => acc + nc.2) 0
+  ((procKeys s (joinParts [a, e])).map fun nc => if nc.1 = n then nc.2 else 0).sum
 
 /-- `GetDeployStatus`: per node, deployed keys + sum of markers (nodes with neither are absent) -/
 def getDeployStatus (s : St) (a e : String) : List (String × Int) :=
